@@ -436,6 +436,10 @@ def analyse(req, out):
             want = shift_answer(base, k)
             if got == want:
                 continue
+            if blank and got == base and (name.startswith("parse_tokens.") or name.endswith(".parse_tokens")):
+                # a text without tokens lexes to the same (empty) stream at every offset, so no parse_tokens can
+                # tell the offsets apart: "equals parsing the text" and "moved by k" cannot both be asked here
+                continue
             tag = None
             ty = name.split(".")[0]
             if (ty == "Stmt" or ty.startswith("Stmt")) and empty_module and got == "(err Eof 0)" and base == "(err Eof 0)":
